@@ -10,7 +10,7 @@ use crate::{
     error::{assert_finite, assert_limited_precision},
     fbig::FBig,
     repr::{Context, Repr, Word},
-    round::{Round, Rounded},
+    round::{Round, Rounded, Rounding},
 };
 
 impl<const B: Word> EstimatedLog2 for Repr<B> {
@@ -304,7 +304,12 @@ impl<R: Round> Context<R> {
         } else {
             2 * sum + s * work_context.ln2()
         };
-        result.with_precision(self.precision)
+        // The logarithm of a rational number other than one is irrational, so the result is never
+        // exact (the flag from the last rounding doesn't know about the truncated series).
+        match result.with_precision(self.precision) {
+            Exact(v) => Inexact(v, Rounding::NoOp),
+            inexact => inexact,
+        }
     }
 }
 
